@@ -211,7 +211,9 @@ func c10Run(t *testing.T, c *choice.Stream, r *Result, opt RunOpt, forced *c10Fo
 		// The server may fall silent in the middle of a packet: the beginning of
 		// its next packet arrives, the rest never does, and the cancellation comes
 		// when the receiver is already inside that packet.
-		partial := silence && forced == nil && !streaming && c.Bool("silence.partial", 1, 3)
+		partial0 := forced == nil && !streaming && c.Bool("silence.partial", 1, 2)
+		partial := silence && partial0
+		partial0 = partial0 && useDeadline && c.Bool("silence.partial.deadline", 2, 3)
 		partialFrac := c.Draw("silence.partial.at", 1000)
 		var cancelLateAt time.Duration = -1
 		doCancel := func() {
@@ -341,6 +343,42 @@ func c10Run(t *testing.T, c *choice.Stream, r *Result, opt RunOpt, forced *c10Fo
 						firedStep, firedAt = e.Sim.Step, dl
 						srv.Script = srv.Script[:srv.ScriptPos()]
 						e.Sim.SetFair()
+					}})
+				}
+				if partial0 {
+					// ... or earlier, in the middle of a packet: the deadline then passes
+					// while the receiver sits inside that packet
+					early := false
+					e.Sim.AddEnv(&sched.EnvFunc{N: "silent-mid-packet", E: func() bool {
+						if early || fired || ctx.Err() != nil {
+							return false
+						}
+						switch gate {
+						case 1:
+							return conn.OutLen() >= kBytes
+						case 2:
+							return srv.ScriptPos() >= pScript
+						default:
+							return e.Sim.Step >= sStep
+						}
+					}, R: func() {
+						early = true
+						var next []byte
+						for i := srv.ScriptPos(); i < len(srv.Script); i++ {
+							if srv.Script[i].OnPacket != nil {
+								break
+							}
+							if len(srv.Script[i].Send) > 0 {
+								next = srv.Script[i].Send
+								break
+							}
+						}
+						srv.Script = srv.Script[:srv.ScriptPos()]
+						srv.Auto = nil
+						if len(next) > 1 {
+							conn.Enqueue(next[:1+partialFrac%(len(next)-1)])
+							r.Fire("silent_mid_packet_before_deadline")
+						}
 					}})
 				}
 			}
